@@ -90,6 +90,32 @@ pub fn commits() -> u64 {
 }
 
 // ---------------------------------------------------------------------------
+// subscription / updates batching deadline (600 ms in production). A simulator can
+// stretch it so that batches are only processed when it forces a flush (by reaching
+// the 1000-candidate threshold through the public candidates channel).
+
+static BUFFER_DEADLINE_MS: AtomicU64 = AtomicU64::new(600);
+
+pub fn set_buffer_deadline_ms(ms: u64) {
+    BUFFER_DEADLINE_MS.store(ms, Ordering::SeqCst);
+}
+
+pub fn buffer_deadline() -> std::time::Duration {
+    std::time::Duration::from_millis(BUFFER_DEADLINE_MS.load(Ordering::SeqCst))
+}
+
+static BATCHES: AtomicU64 = AtomicU64::new(0);
+
+/// a subscription matcher / updates loop finished processing one batch of candidates
+pub fn batch_done() {
+    BATCHES.fetch_add(1, Ordering::SeqCst);
+}
+
+pub fn batches_done() -> u64 {
+    BATCHES.load(Ordering::SeqCst)
+}
+
+// ---------------------------------------------------------------------------
 // ingest loop state (handle_changes): lets a simulator detect exactly when the
 // loop has consumed everything it was offered and has no work left
 
